@@ -49,11 +49,23 @@ package object
 //@ end
 
 //@ func NewPoint
-//@   props C15 C01
+//@   props C15 C01 C02
 //@   fresh r0
 //@   ensures [reject] abs(lon) > 180.0 || abs(lat) >= 85.05112878 ==> r1 != nil
 //@   ensures [accept] abs(lon) <= 180.0 && abs(lat) <= 85.0511287797 ==> r1 == nil
 //@   ensures [store] r1 == nil ==> r0 != nil && r0.lon == lon && r0.alt == alt && abs(lat) - abs(r0.lat) < 0.0000000001 + 0.00000000000003 && abs(r0.lat) <= abs(lat) + 0.00000000000003
+//@ end
+
+//@ -- C02 (ideal reals): the stored latitude is the argument cut toward zero at 1e-10 degrees, accepted iff the cut value is within the limit
+//@ define cut10(l: real) = ite(l > 0.0, real(floor(l * 10000000000.0)) / 10000000000.0, real(ceil(l * 10000000000.0)) / 10000000000.0)
+//@ case NewPoint ideal
+//@   props C02
+//@   float ideal
+//@   inline (*Point).SetLon
+//@   inline (*Point).SetLat
+//@   inline (*Point).SetAlt
+//@   ensures [ok-iff] r1 == nil <==> (abs(lon) <= 180.0 && abs(cut10(lat)) <= 85.051128779799995527355349622666835784912109375)
+//@   ensures [stored] r1 == nil ==> r0 != nil && r0.lon == lon && r0.lat == cut10(lat) && r0.alt == alt
 //@ end
 
 //@ -- C15 / C13: tile keys accept zoom levels 0..35 only
